@@ -107,7 +107,7 @@ SITE_CHECKS = [
     {'file': P, 'pattern': r'state_stack_\.emplace_back\(parse_mode::(array|map_key)', 'count': 2, 'props': ['C10'], 'what': 'containers are pushed only in the two guarded functions'},
 ]
 HARNESSES = [
-    Harness('read_item', 'h_read_item', enforce='read_item', method='LF', unwind=14, props=['C07', 'C06', 'C03'], timeout=900, split=True),
+    Harness('read_item', 'h_read_item', enforce='read_item', method='LF', unwind=14, props=['C07', 'C06', 'C03'], timeout=1800),
     Harness('begin_array', 'h_begin_array', enforce='begin_array', method='LF', unwind=14, props=['C10', 'C07']),
     Harness('begin_object', 'h_begin_object', enforce='begin_object', method='LF', unwind=14, props=['C10', 'C07']),
 ]
